@@ -26,6 +26,15 @@ impl DiffOp {
 
     pub fn grow_left(&mut self, _n: usize) {}
 
+    pub fn is_empty(&self) -> bool {
+        match *self {
+            DiffOp::Equal { len, .. } => len == 0,
+            DiffOp::Delete { old_len, .. } => old_len == 0,
+            DiffOp::Insert { new_len, .. } => new_len == 0,
+            DiffOp::Replace { old_len, new_len, .. } => old_len == 0 && new_len == 0,
+        }
+    }
+
     pub fn old_start(self) -> usize {
         match self {
             DiffOp::Equal { old_index, .. } => old_index,
